@@ -109,7 +109,7 @@ def check(ctx, mps):
         ctx.ob('C11.wait-for-data-entry', 'USBInTransferManager.%s->wait-for-data%s' % (role.get(e.src, e.src), tag), ok, e.loc, 'back to wait-for-data only after ACK or discard: %s' % q.fmt(e)[:200])
     # (c) NAK
     nk = q.raises(ir, 'self.handshakes_out.nak')
-    ok = len(nk) == 1 and q.state_of(nk[0]) == W and not nk[0].guard and q.conj(nk[0].rhs) == INTOK
+    ok = len(nk) == 1 and q.state_of(nk[0]) == W and q.is_one(nk[0].rhs) and q.atoms(nk[0]) == INTOK
     ctx.ob('C11.nak', 'USBInTransferManager.nak' + tag, ok, nk[0].loc if nk else None, 'NAK only while no packet is staged, for an IN token to this endpoint after the gap: %s' % [q.fmt(a) for a in nk])
     # (d)
     rd = ir.drivers('self.transfer_stream.ready', exact=True)
